@@ -30,6 +30,7 @@ import (
 	"github.com/kubewharf/kubebrain/pkg/backend/tso"
 	"github.com/kubewharf/kubebrain/pkg/metrics"
 	"github.com/kubewharf/kubebrain/pkg/storage"
+	"github.com/kubewharf/kubebrain/pkg/verifhook"
 )
 
 // retry state
@@ -124,6 +125,7 @@ type asyncFifoRetryImpl struct {
 // MinRevision implements AsyncFifoRetry interface
 func (a *asyncFifoRetryImpl) MinRevision() uint64 {
 	head := a.queue.getHead()
+	verifhook.Point("retry.minRevisionRead", a, nil)
 	if head != nil {
 		return head.event.Revision
 	}
